@@ -930,13 +930,50 @@ MONITORS = {"C01": mon_C01, "C02": mon_C02, "C03": mon_C03, "C04": mon_C04, "C05
             "C09": mon_C09, "C10": mon_C10, "C11": mon_C11, "C13": mon_C13, "C15": mon_C15, "C16": mon_C16, "C17": mon_C17}
 
 
+def mon_C08_latest_weight(t):
+    """put_or_update calls on one key are applied in the order issued: at quiescence the charged weight of a key is the one
+    the latest weight-determining put_or_update on it asked for (explicit weight, else the weight recomputed from a value)."""
+    from sched_util import weight_calc
+    out = []
+    want = {}      # key -> (id, weight, call index) from the latest weight-determining upsert on a present key
+    for i, r in enumerate(t.recs):
+        if r["skipped"]:
+            continue
+        p = r["ev"].split()
+        if p[0] == "call" and p[2] == "upsert" and r["ret"] and r["ret"][0] in (0, 1):
+            k = int(p[3])
+            ent = t.store_before(i).get(k)
+            if ent is not None:
+                v = None if p[4] == "-" else int(p[4])
+                w = None if p[5] == "-" else int(p[5])
+                ttl = p[6] != "-"
+                if w is None and v is not None:
+                    w = weight_calc(t.cfg["wcalc"], k, v, ttl)
+                if w is not None:
+                    want[k] = (ent[2], w, i)
+                elif p[6] != "-" or p[7] == "1":
+                    want.pop(k, None)      # a TTL-only change adjusts the weight by +-24 depending on the old one: not tracked
+        if p[0] in ("call", "run") and r["ret"] and r["ret"][0] == 3:
+            want.clear()                   # a parked caller makes the order of application ambiguous
+        if p[0] == "call" and p[2] in ("delete", "shutdown") and len(p) > 3 and int(p[3]) in want:
+            want.pop(int(p[3]), None)
+        if t.quiescent(i) and r["roles"]["worker"] == "alive" and not r["snap"]["shut"]:
+            wa = t.weights_after(i)
+            sa = t.store_after(i)
+            for k, (kid, w, ci) in list(want.items()):
+                if k in sa and sa[k][2] == kid and kid in wa and wa[kid][3] != w:
+                    out.append(fail(t, i, "latest-upsert-weight-not-charged", "key %d: the latest put_or_update (event %d) asked for weight %d, everything is acknowledged, the charged weight is %d" % (k, ci, w, wa[kid][3])))
+                    want.pop(k)
+    return out
+
+
 def mon_C08_all(t):
     # "an upsert acknowledged as accepted is never silently lost": a key that was upserted must not disappear without cause
     upserted = {int(r["ev"].split()[3]) for r in t.recs if r["ev"].startswith("call") and r["ev"].split()[2] == "upsert" and not r["skipped"]}
     lost = [f for f in mon_C03(t) if any(("key %d " % k) in f["what"] for k in upserted)]
     for f in lost:
         f["signature"] = "accepted-upsert-lost"
-    return mon_C08(t) + lost
+    return mon_C08(t) + lost + mon_C08_latest_weight(t)
 
 
 MONITORS["C08"] = mon_C08_all
